@@ -32,6 +32,7 @@ def check(chk, thorough=False):
     chk.run('C04.i', 'R-FLOW', 'the octets written are exactly the encoded messages in order: byte buffers only appended and prefix-dropped by what was accepted (= C01.b)', lambda ob: _c01b(tree, ob), floor=7)
     chk.run('C04.j', 'R-SCHEMA', 'a message is complete only with all of its length-prefixed data, also when the data has not arrived yet (= C07.c)', lambda ob: __import__('sa.props.c07', fromlist=['c07c']).c07c(tree, ob), floor=6)
     chk.run('C04.k', 'R-ORDER', 'a transfer is announced with the length it will really send: the file is measured at its end and read from its start (= C01.c, measurement)', lambda ob: __import__('sa.props.c01', fromlist=['tx_measure']).tx_measure(tree, ob), floor=1)
+    chk.run('C04.l', 'R-FRESH', 'transfer IDs are unique per connection because the queues and maps are per connection: created per instance (= C01.g, first part)', lambda ob: __import__('sa.props.common', fromlist=['per_instance_state']).per_instance_state(tree, ob, 'tcpcl/session.py', ('Connection', 'Messenger', 'ContactHandler')), floor=3)
     chk.run('C04.h', 'R-SCHEMA', 'message type codes and field layouts equal RFC 9174', lambda ob: c04h(tree, ob), floor=7)
 
 
